@@ -209,4 +209,324 @@ theorem step_no_internal (o : Oracle) (s : Luba.State) (a : AState) (b : Nat) (h
   obtain ⟨x, hx⟩ := astep_err o a b _ he
   cases hx
 
+
+theorem deframe_skip (o : Oracle) (ctx : Ctx) (b : Nat) (rest : List Nat) (hb : b ≠ 0x59) :
+    lubaDeframe o ctx (b :: rest) = lubaDeframe o ctx rest := by
+  rw [lubaDeframe.eq_def]; simp [hb]
+
+theorem deframe_badlen (o : Oracle) (ctx : Ctx) (c n : Nat) (rest : List Nat) (hn : ¬ (1 ≤ n ∧ n ≤ 20)) :
+    lubaDeframe o ctx (0x59 :: c :: n :: rest) = lubaDeframe o ctx rest := by
+  rw [lubaDeframe.eq_def]; simp [lubaMaxPayload, hn]
+
+theorem deframe_frame (o : Oracle) (ctx : Ctx) (c n b : Nat) (p rest : List Nat)
+    (hn1 : 1 ≤ n) (hn20 : n ≤ 20) (hp : p.length = n) :
+    lubaDeframe o ctx (0x59 :: c :: n :: (p ++ b :: rest)) =
+      if xorSum (c :: n :: p) = b then
+        (lubaMeaning o ctx c p).2 ++ lubaDeframe o (lubaMeaning o ctx c p).1 rest
+      else lubaDeframe o ctx rest := by
+  rw [lubaDeframe.eq_def]
+  have h1 : ¬ (p.length + (rest.length + 1) < n + 1) := by omega
+  have h2 : (p ++ b :: rest).take n = p := by rw [← hp]; exact List.take_left' rfl
+  have h3 : (p ++ b :: rest)[n]?.getD 0 = b := by
+    rw [← hp]; simp
+  have h4 : (p ++ b :: rest).drop (n + 1) = rest := by
+    rw [← hp]
+    have : p ++ b :: rest = (p ++ [b]) ++ rest := by simp
+    rw [this]; exact List.drop_left' (by simp)
+  simp [lubaMaxPayload, hn1, hn20, h1, h2, h3, h4]
+
+theorem deframe_prefix (o : Oracle) (ctx : Ctx) (acc : List Nat) (h : AInv acc) : lubaDeframe o ctx acc = [] := by
+  rcases h with h | h | ⟨c, h⟩ | ⟨c, n, p, h, hn1, hn20, hp⟩
+  · subst h; rw [lubaDeframe.eq_def]
+  · subst h; rw [lubaDeframe.eq_def]; simp
+  · subst h; rw [lubaDeframe.eq_def]; simp
+  · subst h; rw [lubaDeframe.eq_def]; simp [lubaMaxPayload, hn1, hn20]; omega
+
+
+theorem luba_status_facts : ∀ st, st < 256 → ((st &&& 192) >>> 6 = st / 64 ∧ st &&& 63 = st % 64) := by
+  decide +kernel
+
+theorem dtAfter_long (a b c : Nat) (l : List Nat) : dtAfter (a :: b :: c :: l) = 0 := by
+  unfold dtAfter; split
+  · rename_i h; simp at h
+  · rfl
+
+theorem nextDt_general (fr : List Nat) (hb : ∀ x ∈ fr, x < 256) :
+    nextDt (8 * fr.length) (beValue fr) = dtAfter fr := by
+  match fr, hb with
+  | [], _ => simp [nextDt, isEDT, dtAfter]
+  | [a], _ => simp [nextDt, isEDT, dtAfter]
+  | [a, x], hb => exact nextDt_two a x (hb x (by simp))
+  | a :: b :: c :: l, _ =>
+    rw [dtAfter_long]
+    apply nextDt_ne16
+    simp only [List.length_cons]; omega
+
+theorem event_meaning (o : Oracle) (rx tx : Nat) (p : List Nat) (hb : ∀ x ∈ p, x < 256)
+    (hwf : Out.malformed ∉ (lubaEvent o ⟨rx, tx⟩ p).2) :
+    ∃ items, Luba.event o rx tx p =
+        .ok ((lubaEvent o ⟨rx, tx⟩ p).1.rxdt, (lubaEvent o ⟨rx, tx⟩ p).1.txdt, items) ∧
+      (lubaEvent o ⟨rx, tx⟩ p).2 = items.map .item := by
+  match p, hb, hwf with
+  | [], _, hwf => simp [lubaEvent] at hwf
+  | [_], _, hwf => simp [lubaEvent] at hwf
+  | [_, _], _, hwf => simp [lubaEvent] at hwf
+  | [_, _, _], _, hwf => simp [lubaEvent] at hwf
+  | t1 :: t2 :: ln :: st :: rest, hb, hwf =>
+    have hst : st < 256 := hb st (by simp)
+    have hrest : ∀ x ∈ rest, x < 256 := fun x hx => hb x (by simp [hx])
+    obtain ⟨f1, f2⟩ := luba_status_facts st hst
+    simp only [lubaEvent] at hwf ⊢
+    simp only [Luba.event, List.length_cons, List.getD_cons_succ, List.getD_cons_zero, luba_EVENT_TYPE_MASK,
+      luba_EVENT_INFO_MASK, f1, f2, List.drop_succ_cons, List.drop_zero]
+    by_cases h0 : st / 64 = 0
+    · simp only [h0, if_true] at hwf ⊢
+      match rest, hrest, hwf with
+      | [], _, hwf => simp at hwf
+      | id :: fr, hfr, hwf =>
+        have hfr' : ∀ x ∈ fr, x < 256 := fun x hx => hfr x (by simp [hx])
+        have hdt := nextDt_general fr hfr'
+        simp only [List.length_cons, List.drop_succ_cons, List.drop_zero, ofBytesBE_eq, hdt]
+        have l4 : ¬ (fr.length + 1 + 1 + 1 + 1 + 1 < 4) := by omega
+        have l5 : ¬ (fr.length + 1 + 1 + 1 + 1 + 1 < 5) := by omega
+        by_cases hok : fr ≠ [] ∧ o.tx (8 * fr.length) (beValue fr) tx = true
+        · have hpos : 0 < fr.length := List.length_pos_iff.mpr hok.1
+          refine ⟨[Item.txconf id (some ⟨8 * fr.length, beValue fr, tx⟩)], ?_, ?_⟩ <;>
+            simp [hok, hpos, l4, l5]
+        · have hok' : (decide (0 < fr.length) && o.tx (8 * fr.length) (beValue fr) tx) = false := by
+            by_cases hnil : fr = []
+            · simp [hnil]
+            · have : ¬ (o.tx (8 * fr.length) (beValue fr) tx = true) := fun h => hok ⟨hnil, h⟩
+              simp [this]
+          refine ⟨[Item.txconf id none], ?_, ?_⟩ <;> simp [hok, hok', l4, l5]
+    · simp only [h0, if_false] at hwf ⊢
+      have l4 : ¬ (rest.length + 1 + 1 + 1 + 1 < 4) := by omega
+      simp only [l4, if_false]
+      have hne : (st / 64 == 0) = false := by simp [h0]
+      simp only [hne]
+      by_cases h2 : st / 64 = 2
+      · simp only [h2, if_true] at hwf ⊢
+        by_cases hin : 1 ≤ st % 64 ∧ st % 64 ≤ 32
+        · simp only [hin, and_self, if_true] at hwf ⊢
+          match rest, hrest with
+          | [], _ => exact ⟨[], by simp, by simp⟩
+          | [v], _ => exact ⟨[.raw v], by simp, by simp⟩
+          | a :: b :: l, hr =>
+            have hdt := nextDt_general (a :: b :: l) hr
+            simp only [ofBytesBE_eq, hdt]
+            by_cases hok : o.rx (8 * (l.length + 1 + 1)) (beValue (a :: b :: l)) rx = true
+            · exact ⟨[.observed ⟨8 * (a :: b :: l).length, beValue (a :: b :: l), rx⟩], by simp [hok], by simp [hok]⟩
+            · exact ⟨[], by simp [hok], by simp [hok]⟩
+        · exact ⟨[], by simp [hin], by simp [hin]⟩
+      · exact ⟨[], by simp [h2], by simp [h2]⟩
+
+theorem knownCmd_handled : Luba.knownCmd 0x31 = true ∧ Luba.knownCmd 0x33 = true ∧
+    Luba.knownCmd 0x21 = true ∧ Luba.knownCmd 0x2B = true := by decide
+
+theorem meaning_unknown (o : Oracle) (ctx : Ctx) (c : Nat) (p : List Nat) (h : Luba.knownCmd c = false) :
+    lubaMeaning o ctx c p = (ctx, []) := by
+  obtain ⟨k1, k2, k3, k4⟩ := knownCmd_handled
+  have n1 : c ≠ 0x31 := fun e => by rw [e, k1] at h; cases h
+  have n2 : c ≠ 0x33 := fun e => by rw [e, k2] at h; cases h
+  have n3 : c ≠ 0x21 := fun e => by rw [e, k3] at h; cases h
+  have n4 : c ≠ 0x2B := fun e => by rw [e, k4] at h; cases h
+  simp [lubaMeaning, n1, n2, n3, n4]
+
+theorem dispatch_meaning (o : Oracle) (rx tx c n b : Nat) (p : List Nat) (hb : ∀ x ∈ p, x < 256)
+    (hp : p.length = n) (hwf : Out.malformed ∉ (lubaMeaning o ⟨rx, tx⟩ c p).2) :
+    ∃ items, Luba.dispatch o rx tx (0x59 :: c :: n :: (p ++ [b])) =
+        .ok ((lubaMeaning o ⟨rx, tx⟩ c p).1.rxdt, (lubaMeaning o ⟨rx, tx⟩ c p).1.txdt, items) ∧
+      (lubaMeaning o ⟨rx, tx⟩ c p).2 = items.map .item := by
+  have hpl : (List.drop 3 (0x59 :: c :: n :: (p ++ [b]))).dropLast = p := by simp
+  simp only [Luba.dispatch, List.getD_cons_succ, List.getD_cons_zero, hpl, lubaCmd_EVENT_MESSAGE,
+    lubaCmd_ADD_DALI_FRAME_TO_TX_RSP, lubaCmd_QUERY_DEVICE_INFO_RSP, lubaCmd_READ_WRITE_SETTINGS_RSP]
+  unfold lubaMeaning at hwf ⊢
+  by_cases h1 : c = 0x31
+  · simp only [h1, if_true] at hwf ⊢
+    simpa using event_meaning o rx tx p hb hwf
+  · by_cases h2 : c = 0x33
+    · subst h2
+      simp only [show ¬ (0x33 = 0x31) by decide, if_false, if_true] at hwf ⊢
+      by_cases hl : p.length = 1 ∨ p.length = 2
+      · refine ⟨[], ?_, by simp [hl]⟩
+        rcases hl with hl | hl <;> simp [Luba.txResponse, ← hp, hl]
+      · simp [hl] at hwf
+    · by_cases h3 : c = 0x21
+      · subst h3
+        simp only [show ¬ (0x21 = 0x31) by decide, show ¬ (0x21 = 0x33) by decide, if_false, if_true] at hwf ⊢
+        by_cases hl : p.length = 20
+        · subst hp
+          match p, hl with
+          | [p0, p1, p2, p3, p4, p5, p6, p7, p8, p9, p10, p11, p12, p13, p14, p15, p16, p17, p18, p19], _ =>
+            refine ⟨[.devinfo (beValue [p0, p1, p2, p3, p4, p5]) (beValue [p6, p7, p8, p9, p10, p11, p12, p13])
+              p14 p15 (beValue [p16, p17, p18, p19])], ?_, ?_⟩ <;> simp [Luba.deviceInfo, ofBytesBE_eq]
+        · simp [hl] at hwf
+      · by_cases h4 : c = 0x2B
+        · subst h4
+          simp only [show ¬ (0x2B = 0x31) by decide, show ¬ (0x2B = 0x33) by decide,
+            show ¬ (0x2B = 0x21) by decide, if_false, if_true] at hwf ⊢
+          match p, hwf with
+          | [], hwf => simp at hwf
+          | [_], hwf => simp at hwf
+          | m :: f :: l, _ => exact ⟨[.settings m f], by simp [Luba.settingsRsp], by simp⟩
+        · refine ⟨[], ?_, by simp [h1, h2, h3, h4]⟩
+          have e1 : (c == 49) = false := by simp; exact h1
+          have e2 : (c == 51) = false := by simp; exact h2
+          have e3 : (c == 33) = false := by simp; exact h3
+          have e4 : (c == 43) = false := by simp; exact h4
+          simp [e1, e2, e3, e4, h1, h2, h3, h4]
+
+theorem arun_cons_none {o : Oracle} {a a' : AState} {b : Nat} {bs : List Nat} {items : List Item}
+    (h : astep o a b = (a', items, none)) :
+    arun o a (b :: bs) = ((arun o a' bs).1, items ++ (arun o a' bs).2.1, (arun o a' bs).2.2) := by
+  simp [arun, h]
+
+theorem arun_deframe (o : Oracle) : ∀ (bytes : List Nat) (a : AState), AInv a.acc →
+    (∀ x ∈ a.acc ++ bytes, x < 256) →
+    Out.malformed ∉ lubaDeframe o ⟨a.rxdt, a.txdt⟩ (a.acc ++ bytes) →
+    (arun o a bytes).2.2 = none ∧
+    (arun o a bytes).2.1.map Out.item = lubaDeframe o ⟨a.rxdt, a.txdt⟩ (a.acc ++ bytes) := by
+  intro bytes
+  induction bytes with
+  | nil =>
+    intro a hinv _ _
+    simp [arun, deframe_prefix o _ a.acc hinv]
+  | cons b bs ih =>
+    intro a hinv hbd hwf
+    obtain ⟨acc, rx, tx⟩ := a
+    simp only at hinv hbd hwf ⊢
+    rcases hinv with hacc | hacc | ⟨c, hacc⟩ | ⟨c, n, p, hacc, hn1, hn20, hpn⟩
+    · subst hacc
+      by_cases hb : b = 0x59
+      · subst hb
+        have hs : astep o ⟨[], rx, tx⟩ 0x59 = (⟨[0x59], rx, tx⟩, [], none) := by simp [astep]
+        rw [arun_cons_none hs]
+        have := ih ⟨[0x59], rx, tx⟩ (Or.inr (Or.inl rfl)) (by simpa using hbd) (by simpa using hwf)
+        simpa using this
+      · have hs : astep o ⟨[], rx, tx⟩ b = (⟨[], rx, tx⟩, [], none) := by simp [astep, hb]
+        rw [arun_cons_none hs]
+        have hd : lubaDeframe o ⟨rx, tx⟩ ([] ++ b :: bs) = lubaDeframe o ⟨rx, tx⟩ ([] ++ bs) := by
+          simpa using deframe_skip o ⟨rx, tx⟩ b bs hb
+        rw [hd] at hwf ⊢
+        have := ih ⟨[], rx, tx⟩ (Or.inl rfl) (fun x hx => hbd x (by simp at hx ⊢; exact Or.inr hx)) hwf
+        simpa using this
+    · subst hacc
+      have hs : astep o ⟨[0x59], rx, tx⟩ b = (⟨[0x59, b], rx, tx⟩, [], none) := by simp [astep]
+      rw [arun_cons_none hs]
+      have := ih ⟨[0x59, b], rx, tx⟩ (Or.inr (Or.inr (Or.inl ⟨b, rfl⟩))) (by simpa using hbd) (by simpa using hwf)
+      simpa using this
+    · subst hacc
+      by_cases hb : 0 < b ∧ b ≤ 20
+      · have hs : astep o ⟨[0x59, c], rx, tx⟩ b = (⟨[0x59, c, b], rx, tx⟩, [], none) := by simp [astep, hb]
+        rw [arun_cons_none hs]
+        have := ih ⟨[0x59, c, b], rx, tx⟩ (Or.inr (Or.inr (Or.inr ⟨c, b, [], rfl, by omega, by omega, by simp⟩)))
+          (by simpa using hbd) (by simpa using hwf)
+        simpa using this
+      · have hs : astep o ⟨[0x59, c], rx, tx⟩ b = (⟨[], rx, tx⟩, [], none) := by simp [astep, hb]
+        rw [arun_cons_none hs]
+        have hd : lubaDeframe o ⟨rx, tx⟩ ([0x59, c] ++ b :: bs) = lubaDeframe o ⟨rx, tx⟩ ([] ++ bs) := by
+          simpa using deframe_badlen o ⟨rx, tx⟩ c b bs (by omega)
+        rw [hd] at hwf ⊢
+        have := ih ⟨[], rx, tx⟩ (Or.inl rfl) (fun x hx => hbd x (by simp at hx ⊢; exact Or.inr (Or.inr (Or.inr hx)))) hwf
+        simpa using this
+    · subst hacc
+      by_cases hlt : p.length < n
+      · have hs : astep o ⟨0x59 :: c :: n :: p, rx, tx⟩ b = (⟨0x59 :: c :: n :: (p ++ [b]), rx, tx⟩, [], none) := by
+          simp [astep, hlt]
+        rw [arun_cons_none hs]
+        have := ih ⟨0x59 :: c :: n :: (p ++ [b]), rx, tx⟩
+          (Or.inr (Or.inr (Or.inr ⟨c, n, p ++ [b], rfl, hn1, hn20, by simp; omega⟩)))
+          (by simpa using hbd) (by simpa using hwf)
+        simpa using this
+      · have hpe : p.length = n := by omega
+        have hfr := deframe_frame o ⟨rx, tx⟩ c n b p bs hn1 hn20 hpe
+        have hfr' : lubaDeframe o ⟨rx, tx⟩ ((0x59 :: c :: n :: p) ++ b :: bs) = _ := hfr
+        rw [hfr'] at hwf ⊢
+        have hbs : ∀ x ∈ [] ++ bs, x < 256 := fun x hx => hbd x (by simp at hx ⊢; right; right; right; right; right; exact hx)
+        have hpb : ∀ x ∈ p, x < 256 := fun x hx => hbd x (by simp; right; right; right; left; exact hx)
+        by_cases hx : xorSum (c :: n :: p) = b
+        · simp only [hx, if_true] at hwf ⊢
+          have hx' : xorAll (c :: n :: p) = b := by rw [xorAll_eq]; exact hx
+          by_cases hk : Luba.knownCmd c = true
+          · have hwf1 : Out.malformed ∉ (lubaMeaning o ⟨rx, tx⟩ c p).2 := fun h => hwf (List.mem_append_left _ h)
+            have hwf2 : Out.malformed ∉ lubaDeframe o (lubaMeaning o ⟨rx, tx⟩ c p).1 bs :=
+              fun h => hwf (List.mem_append_right _ h)
+            obtain ⟨items, hd1, hd2⟩ := dispatch_meaning o rx tx c n b p hpb hpe hwf1
+            have hs : astep o ⟨0x59 :: c :: n :: p, rx, tx⟩ b =
+                (⟨[], (lubaMeaning o ⟨rx, tx⟩ c p).1.rxdt, (lubaMeaning o ⟨rx, tx⟩ c p).1.txdt⟩, items, none) := by
+              simp [astep, hlt, hx', hk, hd1]
+            rw [arun_cons_none hs]
+            have := ih ⟨[], (lubaMeaning o ⟨rx, tx⟩ c p).1.rxdt, (lubaMeaning o ⟨rx, tx⟩ c p).1.txdt⟩ (Or.inl rfl) hbs
+              (by simpa using hwf2)
+            simp only [List.nil_append] at this
+            simp [this.1, this.2, hd2]
+          · have hk' : Luba.knownCmd c = false := by simpa using hk
+            have hm := meaning_unknown o ⟨rx, tx⟩ c p hk'
+            have hs : astep o ⟨0x59 :: c :: n :: p, rx, tx⟩ b = (⟨[], rx, tx⟩, [], none) := by
+              simp [astep, hlt, hx', hk']
+            rw [arun_cons_none hs]
+            rw [hm] at hwf ⊢
+            have := ih ⟨[], rx, tx⟩ (Or.inl rfl) hbs (by simpa using hwf)
+            simpa using this
+        · simp only [hx, if_false] at hwf ⊢
+          have hx' : ¬ xorAll (c :: n :: p) = b := by rw [xorAll_eq]; exact hx
+          have hs : astep o ⟨0x59 :: c :: n :: p, rx, tx⟩ b = (⟨[], rx, tx⟩, [], none) := by
+            simp [astep, hlt, hx']
+          rw [arun_cons_none hs]
+          have := ih ⟨[], rx, tx⟩ (Or.inl rfl) hbs (by simpa using hwf)
+          simpa using this
+
+/-! ### chunking -/
+
+theorem Luba.runChunk_append (o : Oracle) (a b : List Nat) : ∀ (s : Luba.State), (Luba.runChunk o s a).err = none →
+    Luba.runChunk o s (a ++ b) =
+      ⟨(Luba.runChunk o (Luba.runChunk o s a).state b).state,
+       (Luba.runChunk o s a).items ++ (Luba.runChunk o (Luba.runChunk o s a).state b).items,
+       (Luba.runChunk o (Luba.runChunk o s a).state b).err⟩ := by
+  induction a with
+  | nil => intro s _; simp [Luba.runChunk]
+  | cons x xs ih =>
+    intro s h
+    simp only [Luba.runChunk, List.cons_append] at h ⊢
+    cases he : (Luba.step o s x).err with
+    | some e => simp [he] at h
+    | none =>
+      simp only [he] at h ⊢
+      rw [ih _ h]
+      simp
+
+theorem Sci.runChunk_append (o : Oracle) (a b : List Nat) : ∀ (s : Sci.State), (Sci.runChunk o s a).err = none →
+    Sci.runChunk o s (a ++ b) =
+      ⟨(Sci.runChunk o (Sci.runChunk o s a).state b).state,
+       (Sci.runChunk o s a).items ++ (Sci.runChunk o (Sci.runChunk o s a).state b).items,
+       (Sci.runChunk o (Sci.runChunk o s a).state b).err⟩ := by
+  induction a with
+  | nil => intro s _; simp [Sci.runChunk]
+  | cons x xs ih =>
+    intro s h
+    simp only [Sci.runChunk, List.cons_append] at h ⊢
+    cases he : (Sci.step o s x).err with
+    | some e => simp [he] at h
+    | none =>
+      simp only [he] at h ⊢
+      rw [ih _ h]
+      simp
+
+theorem arun_err (o : Oracle) (bytes : List Nat) : ∀ (a : AState) (e : RxErr), (arun o a bytes).2.2 = some e →
+    ∃ x, e = .handler x := by
+  induction bytes with
+  | nil => intro a e h; simp [arun] at h
+  | cons b bs ih =>
+    intro a e h
+    simp only [arun] at h
+    rcases hst : astep o a b with ⟨a', items, err⟩
+    rw [hst] at h
+    cases err with
+    | some e' =>
+      simp only at h
+      have : (astep o a b).2.2 = some e' := by rw [hst]
+      obtain ⟨x, hx⟩ := astep_err o a b e' this
+      exact ⟨x, by rw [← hx]; exact (Option.some.inj h).symm⟩
+    | none => exact ih a' e h
+
 end DaliVerif.Proofs.SerialRx
